@@ -163,9 +163,9 @@ impl LineParser {
         Ok(())
     }
 
-    // whether shell expression(s) or expectation(s) are given
+    // whether shell expression(s), expectation(s) or an exit code are given
     pub(super) fn has_testcase_body(&self) -> bool {
-        !self.command.is_empty() || !self.expectations.is_empty()
+        !self.command.is_empty() || !self.expectations.is_empty() || self.exit_code.is_some()
     }
 
     fn flush(&mut self) {
